@@ -284,6 +284,9 @@ func (x *Exec) havocOne(sc *specCtx, e ast.Expr, st *State) {
 // havocOneAt: the location expression is evaluated in sc's state, the havoc applied to st.
 func (x *Exec) havocOneAt(sc *specCtx, e ast.Expr, st *State) {
 	if id, ok := e.(*ast.Ident); ok {
+		if id.Name == "nothing" {
+			return // a frame that names no pre-existing location (the callee may still allocate)
+		}
 		if id.Name == "heap" {
 			for k, t := range st.heap {
 				if k == clockName {
@@ -907,6 +910,9 @@ func (x *Exec) modRegions(e ast.Expr, cc *ssa.CallCommon, c *Contract) []string 
 	case *ast.Ident:
 		if e.Name == "heap" {
 			return []string{"*"}
+		}
+		if e.Name == "nothing" {
+			return nil
 		}
 		if _, ok := x.S.Ghosts[e.Name]; ok {
 			return []string{"ghost." + e.Name}
